@@ -286,15 +286,14 @@ func runC02(c *Ctx) {
 	// ---------------- R3: digest in the core ----------------
 	expDigest := func(v ssa.Value) bool { return flow.IsFieldLoad(v, verifyPkg, "Options", "ExpectedUefiSha384") }
 	goldenDigest := func(v ssa.Value) bool { return flow.IsFieldLoad(v, epbPkg, "VMGoldenMeasurement", "Digest") }
-	for _, core := range c.funcsCalling(func(call ssa.CallInstruction) bool { return calleeIs(call, x509CheckSig) }) {
-		if load.RelPkg(core) != "verify" {
-			continue
-		}
+	r3cores, r3regions := c.verifyCores()
+	for _, core := range r3cores {
 		name := load.FuncName(core)
+		region := r3regions[core]
 		const bEq uint = 0
 		nEq := 0
 		r := &esp.Rule{Name: "C02.R3"}
-		r.Relevant = func(*ssa.Function) bool { return false }
+		r.Relevant = func(f *ssa.Function) bool { return region[f] && f != core }
 		r.Flag = func(v ssa.Value) (int, bool) {
 			if isLenOf(v, expDigest) {
 				return 0, true
